@@ -102,6 +102,15 @@ Proof. exact dump_graph_resolves. Qed.
 Theorem c05_graph_hypsb_sound : forall objs root, graph_hypsb objs root = true -> graph_hyps objs root.
 Proof. exact graph_hypsb_sound. Qed.
 
+(* ObjectStore de-duplication: the key is the whole content — bytes and, for every offset, position, WIDTH, target and
+   adjustment; the id returned by ObjectStore::add denotes exactly the table that was added and no existing entry changes
+   (dedup_preserves_resolution: Resolves of an id depends only on the object stored under it). *)
+Theorem c05_dedup_key_is_content : forall a b, obj_eqb a b = true -> a = b.
+Proof. exact obj_eqb_eq. Qed.
+Theorem c05_dedup_preserves_resolution : forall st d st' id, store_add st d = Some (st', id) ->
+  In (d, id) (st_objs st') /\ (forall e, In e (st_objs st) -> In e (st_objs st')).
+Proof. exact store_add_sound. Qed.
+
 (* pack_objects reports success only after the gate returned false on the graph it returns *)
 Theorem c05_pack_success_passed_gate : forall g g',
   pack_objects g = Some (g', Packed) -> has_overflows g' = Some false.
@@ -127,6 +136,8 @@ Print Assumptions c05_kahn_order_topological.
 Print Assumptions c05_pack_success_resolves.
 Print Assumptions c05_dump_bytes_resolve.
 Print Assumptions c05_graph_hypsb_sound.
+Print Assumptions c05_dedup_key_is_content.
+Print Assumptions c05_dedup_preserves_resolution.
 Print Assumptions c05_pack_success_passed_gate.
 Print Assumptions c05_bytes_only_after_gate.
 Print Assumptions c05_pack_false_no_bytes.
